@@ -8,7 +8,7 @@ Definition conflict_guarded (c : cmd) : bool :=
   | CPush _ (Some 0%Z) _ _ _ _ _ _ _ => false            (* `-n 0` is a no-op by design *)
   | CPop _ (Some 0%Z) _ _ _ => false
   | CPush _ _ _ _ _ _ _ _ _ | CPop _ _ _ _ _ | CGoto _ _ _ _ | CFloat _ _ _ | CSink _ _ _ _
-  | CDelete _ _ _ _ _ _ _ _ | CNew _ _ _ | CRefresh | CSpill | CSquash _ _ _ _ | CPick _ _ false => true
+  | CDelete _ _ _ _ _ _ _ _ | CNew _ _ _ | CRefresh _ | CSpill | CSquash _ _ _ _ | CPick _ _ false => true
   | _ => false
   end.
 
@@ -17,6 +17,17 @@ Definition no_explicit_allow (c : cmd) : bool :=
   match c with
   | CPush _ _ _ _ _ _ _ _ (Some true) | CGoto _ _ _ (Some true) | CDelete _ _ _ _ _ _ _ (Some true) => false
   | _ => true
+  end.
+
+(* the patch `stg refresh [-p <patch>]` absorbs the work tree into *)
+Definition refresh_target (s : sstate) (p : option str) : option name :=
+  match p with
+  | None => last_error (s_applied s)
+  | Some o =>
+      match parse_locator o with
+      | Some l => match resolve_constrained (view_of s) LCVisible l with ROk n => Some n | _ => None end
+      | None => None
+      end
   end.
 
 (* the refs of the stack *)
